@@ -1,6 +1,7 @@
 package main
 
 import (
+	"bytes"
 	"errors"
 	"fmt"
 	"sort"
@@ -205,6 +206,10 @@ func genC08(r *Rng, tier string, emit func(string, Tok)) {
 			for _, extra := range []int{1, 2, 3, 4, 16, r.Range(5, 40)} {
 				w := widen(data, extra, r)
 				emit("wide-explicit", scenario{kind: r.Intn(3), optSize: 188 + extra, fault: -1, chunks: []int{r.Range(1, 300)}, data: w, ops: []int{op}}.tok())
+				// a bufio.Reader whose buffer is smaller than, equal to or just larger than one packet (explicit size: the
+				// Demuxer never peeks, any buffer size must do)
+				emit("wide-explicit-bufio-size", scenario{kind: 2, optSize: 188 + extra, fault: -1, chunks: []int{r.Range(1, 300)}, data: w, ops: []int{op},
+					bufSize: []int{16, 100, 187, 188, 188 + extra - 1, 188 + extra, 188 + extra + 1, 193, 400}[r.Intn(9)]}.tok())
 				if extra <= 4 {
 					emit("wide-auto", scenario{kind: 1 + r.Intn(2), optSize: 0, fault: -1, chunks: []int{r.Range(1, 300)}, data: w, ops: []int{op}}.tok())
 				}
@@ -346,6 +351,26 @@ func genC03(r *Rng, tier string, emit func(string, Tok)) {
 		}
 		emit("gap-before-unit-start", scenario{kind: r.Intn(3), optSize: 188, fault: -1, data: d, ops: ops(r)}.tok())
 	}
+	// a payload unit that starts right after a loss (continuity counter jumps on a PUSI packet) or on a packet whose
+	// adaptation field signals a discontinuity: the accumulator is reset and hands out an empty flushed set
+	for k := 0; k < scale(tier, 16, 160); k++ {
+		m := randStream(r, true)
+		data := m.bytes()
+		seen := map[int]bool{}
+		for off := 0; off+188 <= len(data); off += 188 {
+			p := data[off : off+188]
+			pid := int(p[1]&0x1f)<<8 | int(p[2])
+			if p[1]&0x40 != 0 && seen[pid] && r.Chance(1, 2) {
+				if p[3]&0x20 != 0 && p[4] > 0 && r.Bool() {
+					p[5] |= 0x80 // discontinuity_indicator
+				} else {
+					p[3] = p[3]&0xf0 | (p[3]+byte(r.Range(2, 14)))&0x0f
+				}
+			}
+			seen[pid] = true
+		}
+		emit("pusi-after-loss", scenario{kind: r.Intn(3), optSize: []int{0, 188}[r.Intn(2)], fault: -1, chunks: []int{r.Range(1, 500)}, data: data, ops: ops(r)}.tok())
+	}
 	// truncation at every offset of a small stream
 	m := genRefStream(r, streamOpts{PESPIDs: 1, UnitsPerPID: 2, MaxPES: 200, Tables: true})
 	data := m.bytes()
@@ -408,6 +433,31 @@ func genC02(r *Rng, tier string, emit func(string, Tok)) {
 			Tables: true, Fillers: r.Bool(), SmallChunks: r.Chance(1, 3), Repeats: r.Intn(3)})
 		emit("stream", scenario{kind: r.Intn(2), optSize: 188, fault: -1, data: m.bytes(), ops: []int{3}}.tok())
 	}
+	// bounded PES units at the top of the 16-bit PES_packet_length range (every value 65520..65535 in the thorough
+	// tier), followed by another unit of the PID so that they are flushed by a unit start, not by the end of the stream
+	tops := []int{65529, 65530, 65533, 65535}
+	if tier == "thorough" {
+		tops = nil
+		for t := 65520; t <= 65535; t++ {
+			tops = append(tops, t)
+		}
+	}
+	for _, t := range tops {
+		m := genRefStream(r, streamOpts{PESPIDs: 2, UnitsPerPID: 2, MaxPES: 300, Tables: true, PESTotals: []int{t, 200 + r.Intn(100)}})
+		emit("pes-length-top", scenario{kind: r.Intn(2), optSize: 188, fault: -1, data: m.bytes(), ops: []int{3}}.tok())
+	}
+	// one unit spread over several thousand packets (one or two payload bytes each), other PIDs interleaved
+	for _, np := range scaleList(tier, []int{4100}, []int{1000, 4096, 4097, 8200, 16400}) {
+		m := genRefStream(r, streamOpts{PESPIDs: 2, UnitsPerPID: 2, MaxPES: 300, Tables: true, LongUnit: np})
+		emit("long-unit", scenario{kind: 1, optSize: 188, fault: -1, data: m.bytes(), ops: []int{3}}.tok())
+	}
+}
+
+func scaleList(tier string, quick, thorough []int) []int {
+	if tier == "thorough" {
+		return thorough
+	}
+	return quick
 }
 
 // unitsOf re-derives the unit model from the bytes of a reference stream: per PID, the list of unit payloads
@@ -534,6 +584,7 @@ func describeData(d *astits.DemuxerData) string {
 			var desc []byte
 			for _, x := range e.ElementaryStreamDescriptors {
 				desc = append(desc, x.Tag, x.Length)
+				desc = append(desc, x.UserDefined...)
 				if x.Unknown != nil {
 					desc = append(desc, x.Unknown.Content...)
 				}
@@ -741,6 +792,46 @@ func genC06(r *Rng, tier string, emit func(string, Tok)) {
 			emit("multi-fault", scenario{kind: 1, optSize: 188, fault: -1, prsSpec: L(I(1)), data: d, ops: []int{3}}.tok())
 		}
 	}
+	// bursts of exactly 13..15 lost packets of one PID inside long units of full packets (after 15 the counter repeats
+	// the last one received: only the bytes tell the packet from a duplicate), clear and scrambled
+	// (transport_scrambling_control 2 / 3) PIDs, other PIDs interleaved
+	for k := 0; k < scale(tier, 12, 120); k++ {
+		m := genRefStream(r, streamOpts{PESPIDs: 2, UnitsPerPID: 3, MaxPES: 300, Tables: true, PESTotals: []int{184 * r.Range(20, 30), 184 * r.Range(20, 30), 184 * r.Range(2, 5)}})
+		data := m.bytes()
+		np := len(data) / 188
+		pid0 := m.PIDs[len(m.PIDs)-1]
+		for _, q := range m.PIDs {
+			if us := m.Units[q]; len(us) == 3 && !us[0].IsPSI && len(us[0].Bytes) > 3000 {
+				pid0 = q
+			}
+		}
+		tsc := byte([]int{0, 0x80, 0xc0}[k%3])
+		var own []int
+		for i := 0; i < np; i++ {
+			b := pktAt(data, i)
+			if uint16(b[1]&0x1f)<<8|uint16(b[2]) == pid0 {
+				b[3] |= tsc
+				own = append(own, i)
+			}
+		}
+		if len(own) < 24 {
+			continue
+		}
+		burst := []int{15, 15, 14, 13}[r.Intn(4)]
+		start := r.Range(1, len(own)-burst-2)
+		drop := map[int]bool{}
+		for _, i := range own[start : start+burst] {
+			drop[i] = true
+		}
+		var d []byte
+		for i := 0; i < np; i++ {
+			if !drop[i] {
+				d = append(d, pktAt(data, i)...)
+			}
+		}
+		emit("clean", scenario{kind: 1, optSize: 188, fault: -1, prsSpec: L(I(1)), data: data, ops: []int{3}}.tok())
+		emit(fmt.Sprintf("burst-%d", burst), scenario{kind: 1, optSize: 188, fault: -1, prsSpec: L(I(1)), data: d, ops: []int{3}}.tok())
+	}
 	// K2: the first packet of a unit is lost and the continuation begins with a start code
 	for k := 0; k < scale(tier, 3, 20); k++ {
 		var d []byte
@@ -820,6 +911,108 @@ func genC06(r *Rng, tier string, emit func(string, Tok)) {
 		}
 	}
 	rec2(nil, maxLen)
+	// duplicates of the LAST packet of multi-packet PAT / PMT units (C06_dup_psi): the unit is flushed early by that
+	// packet, so its duplicate meets an empty queue. The byte at the packet boundary decides what happens to it:
+	// read as a pointer_field that leads past the end (0xff, 0xb8) it waits and is flushed as an orphan group by
+	// the next unit start; 0x00 followed by a known table_id likewise, and the orphan fails to parse; a small value
+	// leading into 0xff stuffing makes it "complete" by itself and it is flushed at once.
+	for k := 0; k < scale(tier, 40, 300); k++ {
+		pesPID := uint16(0x100 + r.Intn(0x100))
+		pmtPID := uint16(0x1000)
+		if r.Bool() {
+			pmtPID = uint16(0x20 + r.Intn(0x40))
+		}
+		boundary := []int{0x00, 0xff, 0xb8, 0x42, 0x02, r.Intn(256)}[r.Intn(6)]
+		mkPAT := func(big bool) *refUnit {
+			pat := &refSection{TableID: 0, Ext: uint16(r.Bits(16)), Version: byte(r.Intn(32)),
+				Programs: []refProgram{{Number: 1, PID: pmtPID}}}
+			if big {
+				for j, n := 1, r.Range(46, 70); j < n; j++ {
+					pr := refProgram{Number: uint16(0x4000 + r.Intn(0x4000)), PID: uint16(0x1e00 + r.Intn(0x100))}
+					if j == 43 { // its last byte is the first payload byte of the second packet (pointer_field 0, 184-byte chunks)
+						pr.PID = uint16(0x1e00 + boundary)
+					}
+					pat.Programs = append(pat.Programs, pr)
+				}
+			}
+			u := refPSI(r, 0, []*refSection{pat})
+			return u
+		}
+		mkPMT := func(big bool) *refUnit {
+			pmt := &refSection{TableID: 2, Ext: 1, Version: byte(r.Intn(32)), PCRPID: pesPID,
+				Streams: []refStream{{Type: 0x1b, PID: pesPID}}}
+			if big {
+				for j, n := 0, r.Range(12, 30); j < n; j++ {
+					st := refStream{Type: []byte{0x1b, 0x0f, 0x03, 0x06, 0x81}[r.Intn(5)], PID: uint16(0x1d00 + r.Intn(0x100))}
+					dl := r.Range(2, 12)
+					st.Desc = append([]byte{0x13, byte(dl)}, r.Bytes(dl)...)
+					pmt.Streams = append(pmt.Streams, st)
+				}
+			}
+			return refPSI(r, pmtPID, []*refSection{pmt})
+		}
+		ccs := map[uint16]*byte{}
+		pkts := func(u *refUnit, exact bool) []*refPacket {
+			if ccs[u.PID] == nil {
+				c := byte(r.Intn(16))
+				ccs[u.PID] = &c
+			}
+			if !exact {
+				return packetiseUnit(r, u, 0, ccs[u.PID], r.Chance(1, 4))
+			}
+			var out []*refPacket // 184-byte chunks, the rest padded with 0xff inside the payload
+			rest := u.Bytes
+			for first := true; len(rest) > 0; first = false {
+				n := 184
+				if n > len(rest) {
+					n = len(rest)
+				}
+				*ccs[u.PID] = (*ccs[u.PID] + 1) & 15
+				pl := append([]byte{}, rest[:n]...)
+				for len(pl) < 184 {
+					pl = append(pl, 0xff)
+				}
+				out = append(out, &refPacket{PID: u.PID, PUSI: first, CC: *ccs[u.PID], AFLen: -1, Payload: pl})
+				rest = rest[n:]
+			}
+			return out
+		}
+		exact := r.Chance(2, 3)
+		var seq [][]*refPacket // the units in stream order
+		var isPSI []bool
+		add := func(ps []*refPacket, psi bool) { seq = append(seq, ps); isPSI = append(isPSI, psi) }
+		for rep := 0; rep < 3; rep++ {
+			add(pkts(mkPAT(rep == 0 || r.Bool()), exact), true)
+			add(pkts(mkPMT(rep == 0 || r.Bool()), exact), true)
+			for j, n := 0, r.Range(1, 2); j < n; j++ {
+				add(pkts(refMuxPES(r, pesPID, 0xe0, r.Range(1, 500), false), false), false)
+			}
+		}
+		var clean []byte
+		for _, ps := range seq {
+			for _, p := range ps {
+				clean = append(clean, p.encode()...)
+			}
+		}
+		emit("dup-psi-last-clean", scenario{kind: 1, optSize: 188, fault: -1, prsSpec: L(I(1)), data: clean, ops: []int{3}}.tok())
+		for ui, ps := range seq {
+			if !isPSI[ui] || len(ps) < 2 {
+				continue
+			}
+			for _, delay := range []int{0, 1} { // the duplicate directly after, or after the first packet of the next unit (another PID)
+				var d []byte
+				for uj, qs := range seq {
+					for pj, p := range qs {
+						d = append(d, p.encode()...)
+						if (delay == 0 && uj == ui && pj == len(qs)-1) || (delay == 1 && uj == ui+1 && pj == 0) {
+							d = append(d, ps[len(ps)-1].encode()...)
+						}
+					}
+				}
+				emit("dup-psi-last", scenario{kind: 1, optSize: 188, fault: -1, prsSpec: L(I(1)), data: d, ops: []int{3}}.tok())
+			}
+		}
+	}
 }
 
 // unitKey identifies a delivered unit by PID and content.
@@ -853,7 +1046,85 @@ func oracleC06(s scenario, run *demuxRun) string {
 	// which only need the faulted stream itself and the reference decoder.
 	units := unitsOf(s.data)
 	_ = units
-	return oracleC06Faulted(s, run)
+	if v := oracleC06Faulted(s, run); v != "" {
+		return v
+	}
+	return oracleC06DupGroups(s, run)
+}
+
+// oracleC06DupGroups checks the duplicate clause at the level of the packet groups handed to the parser, on the
+// implementation alone: for a stream whose only faults are immediate duplicates (no counter gap on any PID), the
+// groups are those of the stream with the duplicates removed (the implementation is run again on it), in the same
+// order, except that on PID 0 / PMT PIDs a duplicated packet may additionally appear as a group of its own, at most
+// once per duplicate (C06_dup_pes, C06_dup_psi).
+func oracleC06DupGroups(s scenario, run *demuxRun) string {
+	type last struct {
+		cc  int
+		raw []byte
+	}
+	prev := map[uint16]*last{}
+	var dedup []byte
+	dups := map[string]int{} // summary of a duplicated packet -> how many times it was duplicated
+	ndup := 0
+	for off := 0; off+188 <= len(s.data); off += 188 {
+		b := s.data[off : off+188]
+		if b[0] != 0x47 {
+			return ""
+		}
+		pid := uint16(b[1]&0x1f)<<8 | uint16(b[2])
+		if b[1]&0x80 != 0 || b[3]&0x10 == 0 {
+			dedup = append(dedup, b...)
+			continue
+		}
+		cc := int(b[3] & 15)
+		if l := prev[pid]; l != nil {
+			switch {
+			case bytes.Equal(l.raw, b):
+				p := 4
+				if b[3]&0x20 != 0 {
+					p += 1 + int(b[4])
+				}
+				if p > 188 {
+					p = 188
+				}
+				dups[pktSummary(&astits.Packet{Header: astits.PacketHeader{PID: pid, ContinuityCounter: uint8(cc), PayloadUnitStartIndicator: b[1]&0x40 != 0}, Payload: b[p:]}).String()]++
+				ndup++
+				continue
+			case cc != (l.cc+1)&15:
+				return "" // a gap: the loss clauses apply, not this one
+			}
+		}
+		prev[pid] = &last{cc, b}
+		dedup = append(dedup, b...)
+	}
+	if ndup == 0 {
+		return ""
+	}
+	psi := psiPIDsOf(unitsOf(dedup))
+	other := runScenario(scenario{kind: 1, optSize: 188, fault: -1, prsSpec: L(I(1)), data: dedup, ops: []int{3}})
+	j := 0
+	for _, g := range run.groups {
+		if j < len(other.groups) && g.String() == other.groups[j].String() {
+			j++
+			continue
+		}
+		// an extra group: only a duplicated packet of a PSI PID, alone
+		ok := false
+		if len(g.L) == 1 {
+			key := g.At(0).String()
+			if dups[key] > 0 && psi[uint16(g.At(0).At(0).Int())] {
+				dups[key]--
+				ok = true
+			}
+		}
+		if !ok {
+			return fmt.Sprintf("duplicates only: the packet groups differ from those of the stream without the duplicates other than by a duplicated PSI packet as a group of its own: group %s", g.String())
+		}
+	}
+	if j != len(other.groups) {
+		return fmt.Sprintf("duplicates only: a packet group of the stream without the duplicates is missing or altered: %s", other.groups[j].String())
+	}
+	return ""
 }
 
 // oracleC06Faulted checks the property's clauses on a faulted stream using only the stream and an independent
